@@ -310,5 +310,12 @@ func parsePrivateKey(der []byte) (crypto.PrivateKey, error) {
 	if key, err := X.ParsePKCS8UnecryptedPrivateKey(der); err == nil {
 		return key, nil
 	}
+	// SEC1 "EC PRIVATE KEY": the NIST curves first (crypto/x509 refuses the SM2 curve OID), then SM2
+	if key, err := x509.ParseECPrivateKey(der); err == nil {
+		return key, nil
+	}
+	if key, err := X.ParseSm2PrivateKey(der); err == nil {
+		return key, nil
+	}
 	return nil, errors.New("tls: failed to parse private key")
 }
